@@ -1,7 +1,7 @@
 //! Crash-isolated execution of a corpus: programs run in worker processes in batches; a batch
 //! whose worker dies or times out is re-run one program at a time to attribute the failure.
 
-use super::run::{run_text, Case, CycleObs};
+use super::run::{run_text_inputs, v_to_cell, Case, CycleObs};
 use crate::fw::Machinery;
 use crate::iso::{self, Outcome, PoolCfg};
 use serde_json::{json, Value};
@@ -24,7 +24,16 @@ pub fn worker_batch(case: &Value) -> Value {
     for p in case["progs"].as_array().cloned().unwrap_or_default() {
         let text = p["text"].as_str().unwrap_or("");
         let cycles = p["cycles"].as_u64().unwrap_or(1) as usize;
-        match run_text(text, cycles) {
+        let parsed = if p["inputs"].is_null() { Ok(Vec::new()) } else { serde_json::from_value::<Vec<Vec<(String, super::ast::V)>>>(p["inputs"].clone()) };
+        let Ok(parsed) = parsed else {
+            out.push(json!({"rejected": "harness: input trace not decodable"}));
+            continue;
+        };
+        let inputs: Vec<Vec<(String, trust_runtime::value::Value)>> = parsed
+            .iter()
+            .map(|c| c.iter().map(|(a, v)| (a.clone(), v_to_cell(a, v))).collect())
+            .collect();
+        match run_text_inputs(text, cycles, &inputs) {
             Err(e) => out.push(json!({"rejected": e})),
             Ok(obs) => out.push(json!({"cycles": obs.iter().map(|o| json!({"outcome": o.outcome, "frames": o.frames, "dump": o.dump})).collect::<Vec<_>>()})),
         }
@@ -66,7 +75,7 @@ pub fn pool(threads: usize, deadline: Option<Instant>, per_case: Duration) -> Po
 /// Runs all cases; `None` = not executed because the deadline passed.
 pub fn run_corpus(threads: usize, cases: &[Case], deadline: Option<Instant>) -> Result<Vec<Option<ProgResult>>, Machinery> {
     let batch = 64usize;
-    let texts: Vec<Value> = cases.iter().map(|c| json!({"text": c.text(), "cycles": c.cycles})).collect();
+    let texts: Vec<Value> = cases.iter().map(|c| json!({"text": c.text(), "cycles": c.cycles, "inputs": c.input_writes()})).collect();
     let batches: Vec<Value> = texts.chunks(batch).map(|c| json!({"progs": c})).collect();
     let cfg = pool(threads, deadline, Duration::from_secs(120));
     let outs = iso::run_pool(&cfg, &batches).map_err(Machinery)?;
